@@ -170,12 +170,12 @@ func (t *VT) run(script string) (string, error) {
 	return strings.Join(reads, "|"), nil
 }
 
-func (t *VT) TxScript(_ *types.Sender, script string) (string, error)   { return t.run(script) }
-func (t *VT) TxScriptNS(script string) (string, error)                   { return t.run(script) }
+func (t *VT) TxScript(_ *types.Sender, script string) (string, error)     { return t.run(script) }
+func (t *VT) TxScriptNS(script string) (string, error)                    { return t.run(script) }
 func (t *VT) NBTxScriptNb(_ *types.Sender, script string) (string, error) { return t.run(script) }
-func (t *VT) NBTxScriptNbNS(script string) (string, error)                 { return t.run(script) }
-func (t *VT) QueryPoke(_ *types.Sender, script string) (string, error)  { return t.run(script) }
-func (t *VT) QueryPokeNS(script string) (string, error)                  { return t.run(script) }
+func (t *VT) NBTxScriptNbNS(script string) (string, error)                { return t.run(script) }
+func (t *VT) QueryPoke(_ *types.Sender, script string) (string, error)    { return t.run(script) }
+func (t *VT) QueryPokeNS(script string) (string, error)                   { return t.run(script) }
 
 // TxEcho has two string parameters after the sender (used by tamper tests: two adjacent fields).
 func (t *VT) TxEcho(_ *types.Sender, a string, b string) (string, error) {
@@ -198,7 +198,9 @@ func (t *VT) NBTxWhoAmINb(sender *types.Sender) (string, error) { return t.TxWho
 func (t *VT) QueryWhoAmIQ(sender *types.Sender) (string, error) { return t.TxWhoAmI(sender) }
 
 // NBTxEchoNb is TxEcho on the immediate route.
-func (t *VT) NBTxEchoNb(s *types.Sender, a string, b string) (string, error) { return t.TxEcho(s, a, b) }
+func (t *VT) NBTxEchoNb(s *types.Sender, a string, b string) (string, error) {
+	return t.TxEcho(s, a, b)
+}
 
 // TxEchoB has the same shape as TxEcho (used to test that the function name is covered).
 func (t *VT) TxEchoB(s *types.Sender, a string, b string) (string, error) { return t.TxEcho(s, a, b) }
